@@ -102,6 +102,9 @@ SHAPE_SPECS = [
     ('a2-all-4k', False, False, 'all', 4096),
     ('a4-ap-all-64k', True, True, 'all', 65535),
     ('a2-ap-all-4k', False, True, 'all', 4096),
+    # extended next hop (RFC 8950) in both OPENs, for every (afi, safi, next-hop afi) ExaBGP knows
+    ('a4-all-64k-xnh', True, False, 'all', 65535),
+    ('a2-ap-all-4k-xnh', False, True, 'all', 4096),
 ]
 
 
@@ -110,7 +113,7 @@ def _name(asn4: bool, addpath: bool, families: str, msg: int) -> str:
 
 
 # the full hypercube (16 shapes); the streams run on the 8 of SHAPE_SPECS, shrinking may visit the others
-ALL_SPECS = [(_name(a, ap, fam, m), a, ap, fam, m) for a in (True, False) for ap in (False, True) for fam in ('ipv4 unicast ipv6 unicast', 'all') for m in (4096, 65535)]
+ALL_SPECS = [(_name(a, ap, fam, m), a, ap, fam, m) for a in (True, False) for ap in (False, True) for fam in ('ipv4 unicast ipv6 unicast', 'all') for m in (4096, 65535)] + [s for s in SHAPE_SPECS if s[0].endswith('-xnh')]
 
 _shapes: dict[str, Shape] = {}
 
@@ -155,7 +158,17 @@ def build_shape(spec: tuple) -> Shape:
     if addpath:
         n.capability.add_path = 3  # send/receive
         pn.capability.add_path = 3
+    if name.endswith('-xnh'):
+        from exabgp.bgp.message.open.capability.capabilities import Capabilities
+        from exabgp.util.enumeration import TriState
+
+        for x in (n, pn):
+            x.capability.nexthop = TriState.TRUE
+            for a, s_, h in Capabilities._NEXTHOP:
+                x.add_nexthop(a, s_, h)
     neg = sessions.negotiate(n, peer_neighbor=pn, direction=Direction.IN, asn4=asn4, msg_size=msg_size)
+    if name.endswith('-xnh') and not neg.nexthop:
+        raise RuntimeError('rig: extended next hop was not negotiated')
     peer, proto = sessions.make_peer(n, neg)
     every = {k: True for k in ('parsed', 'open', 'update', 'notification', 'keepalive', 'refresh', 'operational')}
     n.api = ParseAPI.flatten({'c03': {'processes': ['c03'], 'neighbor-changes': True, 'receive': every}})
